@@ -1113,7 +1113,9 @@ class ClientRequest(ClientRequestBase):
         self._update_proxy(proxy, proxy_headers)
 
         self._update_body_from_data(data)
-        if data is not None or self.method not in self.GET_METHODS:
+        # (chunked=True is honoured without a body too: the empty chunked
+        # body that is then written has to be announced)
+        if data is not None or self.method not in self.GET_METHODS or self.chunked:
             self._update_transfer_encoding()
         self._update_expect_continue(expect100)
         self._traces = traces
@@ -1297,7 +1299,7 @@ class ClientRequest(ClientRequestBase):
         self._update_body_from_data(body)
 
         # Update transfer encoding headers if needed (same logic as __init__)
-        if body is not None or self.method not in self.GET_METHODS:
+        if body is not None or self.method not in self.GET_METHODS or self.chunked:
             self._update_transfer_encoding()
 
     async def update_body(self, body: Any) -> None:
